@@ -321,7 +321,7 @@ SHRINK_FIELDS = {"mlw": [1, 3, 4], "spy": [3], "fmt": [4], "queue": [3], "queue0
 ENGINE_OF = {"mlw": "mlw", "spy": "mlw", "fmt": "fmt", "std": "fmt", "val": "fmt", "raw": "fmt", "queue": "queue", "qstress": "queue", "queue0": "queue",
              "qburst": "queue", "qlatency": "queue", "qdroprace": "queue",
              "sock": "sock", "sockmt": "sock", "socklock": "sock", "sockcr": "sock", "holder": "holder", "mac": "macros", "macn": "macros", "mact": "macros",
-             "qemitdrop": "queue", "qdeep": "queue", "qfirst": "queue", "qnothread": "queue", "qunwind": "queue", "sockbig": "sock", "sockstrace": "sock", "sockflushrace": "sock", "sockctor": "sock", "hdl": "fmt", "fmtn": "fmt", "cfl": "mlw", "holdern": "holder", "holdermiri": "holder"}
+             "qemitdrop": "queue", "qstop0": "queue", "qdeep": "queue", "qfirst": "queue", "qnothread": "queue", "qunwind": "queue", "sockbig": "sock", "sockstrace": "sock", "sockflushrace": "sock", "sockctor": "sock", "hdl": "fmt", "fmtn": "fmt", "cfl": "mlw", "holdern": "holder", "holdermiri": "holder"}
 
 
 def engine_of(caseline, default):
